@@ -13,7 +13,7 @@ From Coq Require Import List Arith ZArith.
 Import ListNotations.
 From YP Require Import Base.Str Term.Term Term.Fast Unify.Unify Unify.UnifyGen Lang.Ast Comp.IR Comp.CompileClause Sem.Machine Sem.RunSem
   Engine.GenMachine Engine.RunGen Engine.BoundedHeap Engine.Bounded Engine.BoundedQuery Engine.RunBoundedM Engine.BoundedMachine
-  Sem.ExecMono Sem.Native Sem.NativeExc Engine.NativeMono Engine.BoundedNative.
+  Sem.ExecMono Sem.Native Sem.NativeExc Engine.NativeMono Engine.BoundedNative Engine.BoundedClose.
 
 (* "for a deeper or infinite search it returns a prefix of that sequence": the sequences at all depths
    are prefixes of each other, and a search that ends within depth n is the same at every deeper m *)
@@ -234,3 +234,34 @@ Example C17_heap_nonvacuous :
   eb_final_heap ex_prog2 (fun _ => 0) 100 10 2 [(7, A "keep")] (fst (ex_prog2 1)) tt = Some [(7, A "keep")] /\
   eb_final_heap ex_prog2 (fun _ => 0) 100 1 1 [(7, A "keep")] (fst (ex_prog2 1)) tt = Some [(7, A "keep")].
 Proof. vm_compute. repeat split. Qed.
+
+(* round 4: query.close() in the finally block may itself RAISE (the clean-up of a registered Python predicate that is closed
+   early and is reached from the query by `yield from` delegation only: goal of the query itself, call/N).  Engine/BoundedClose.v:
+   `cexc g` = what close() raises on a generator in state g (ARBITRARY).  On every branch the recursion limit is the old one
+   and the generator is finished - because engine.py restores the limit BEFORE it closes the query. *)
+Theorem C17_close_raises_restores : forall (A B : Type) (ans : nat -> res A) (gexc : nat -> exc)
+  (proj : nat -> A -> nat -> pout B * nat) budget cur (cexc : gstate -> option exc) st limit,
+  running cur st ->
+  snd (evaluate_bounded_c ans gexc proj budget cur cexc st limit) = {| rl := rl st; gs := Done |}.
+Proof. exact BoundedClose.close_raises_rlimit_restored_all. Qed.
+Print Assumptions C17_close_raises_restores.
+
+(* and what comes out is the exception of close(), or exactly the outcome of evaluate_bounded with a close() that returns
+   (to which C17_no_depth_error_escapes, C17_result_is_prefix, ... apply) *)
+Theorem C17_close_raises_outcome : forall (A B : Type) (ans : nat -> res A) (gexc : nat -> exc)
+  (proj : nat -> A -> nat -> pout B * nat) budget cur (cexc : gstate -> option exc) st limit,
+  running cur st ->
+  (exists g e, cexc g = Some e /\ fst (evaluate_bounded_c ans gexc proj budget cur cexc st limit) = Propagate e) \/
+  fst (evaluate_bounded_c ans gexc proj budget cur cexc st limit) = fst (evaluate_bounded ans gexc proj budget cur true st limit).
+Proof. exact BoundedClose.close_raises_outcome_all. Qed.
+Print Assumptions C17_close_raises_outcome.
+
+(* non-vacuity, and the ORDER of the two statements is what the theorem is about: the projection raises at the first answer,
+   close() of the suspended query raises; engine.py's finally gives the limit 1000 back, the swapped one leaves 150 *)
+Example C17_close_order_matters :
+  running 10 ex_st /\
+  evaluate_bounded_c ex_ans (fun _ => ERuntime) ex_proj (fun l c => l - c) 10 ex_cexc ex_st 150
+    = (Propagate (EOther 9), {| rl := 1000; gs := Done |}) /\
+  evaluate_bounded_swapped ex_ans (fun _ => ERuntime) ex_proj (fun l c => l - c) 10 ex_cexc ex_st 150
+    = (Propagate (EOther 9), {| rl := 150; gs := Done |}).
+Proof. exact BoundedClose.swapped_order_leaks. Qed.
